@@ -407,6 +407,8 @@ def run_world(plan, world=None):
       elif what == 'up':
         srv.blackhole = None
         srv.set_up()
+      elif isinstance(what, list) and what[0] == 'flaky':
+        tr.peers[act[1]].drop_after_next_pong = what[1]
       elif isinstance(what, list) and what[0] == 'blackhole':
         srv.set_down(reset=True)
         srv.blackhole = what[1]
